@@ -570,6 +570,16 @@ def systematic_lines():
             out.append('a' * k + ch + 'a' * 4)
         out.append('go ' + 'a' * 14 + ch)
         out.append(ch * 12)
+    # move tokens with a multi-byte character at every byte offset (tokens of 3 to 8 bytes; a move is 4 or 5 bytes long)
+    base = 'e2e4qq'
+    for ch in ['\u00e9', '\u20ac', '\u265e', '\U0001F600']:
+        for k in range(0, 6):
+            for keep in range(0, 4):
+                tok = base[:k] + ch + base[k:k + keep]
+                if 3 <= len(tok.encode()) <= 8:
+                    out.append('position startpos moves ' + tok)
+        out.append('position startpos moves e2e4 e7e' + ch)
+        out.append('go searchmoves e2e' + ch)
     return out
 
 
@@ -670,7 +680,7 @@ def random_game_moves(rng, n):
 
 
 DRIVERS = {'C09': session_c09, 'C10': session_c10, 'C14': session_c14, 'C15': session_c15}
-SESSIONS = {'C09': (90, 7000), 'C10': (100, 5000), 'C14': (70, 2500), 'C15': (220, 30000)}
+SESSIONS = {'C09': (90, 7000), 'C10': (100, 5000), 'C14': (70, 2500), 'C15': (220, 20000)}
 PAR = {'C09': 4, 'C10': 4, 'C14': 4, 'C15': 8}
 
 
